@@ -4,12 +4,13 @@ import random
 import sys
 from vf import Case
 sys.path.insert(0, os.path.join(os.path.dirname(os.path.abspath(__file__)), ".."))
-from gen import crc_table
+from gen import crc_table, constants
 
 ID = "C16"
 DRIVER = "drv_codec"
 HARNESS = "h_codec"
-GEN = [crc_table.gen]
+GEN = [crc_table.gen, constants.gen]
+TIE = ['Ufw.Tie.Misc']
 GEN_OBLIGATIONS = ["Ufw.Lemmas.Crc.table_length", "Ufw.Lemmas.Crc.table_eq_bitwise (256 closed instances over the regenerated table)",
                    "Ufw.Lemmas.Crc.octet_formula", "Ufw.Lemmas.Crc.index_eq"]
 ALLOW_BV = True
